@@ -6,6 +6,7 @@ from __future__ import annotations
 import ast
 import builtins
 import json
+import os
 import random
 import time
 from collections import Counter
@@ -13,6 +14,7 @@ from pathlib import Path
 
 from . import common, c15_tables, c15_worker
 from . import c15_terms as T
+from . import c15_hunt as H
 from .c15_worker import _Timeout
 
 PID = "C15"
@@ -39,6 +41,26 @@ def enc(v):
     return {"o": t.__name__}
 
 
+def canon(v):
+    """type-exact canonical text of a value made of plain data only (no object addresses, no set order), else None"""
+    t = type(v)
+    if v is None or t in (bool, int, float, complex, str, bytes, range, slice, type(Ellipsis)):
+        if t is int and v.bit_length() > T.MAX_INT_BITS:
+            return None
+        return f"{t.__name__}:{v!r}"
+    if t in (tuple, list):
+        items = [canon(x) for x in v]
+        return None if None in items else f"{t.__name__}:[" + ", ".join(items) + "]"
+    if t in (set, frozenset):
+        items = [canon(x) for x in v]
+        return None if None in items else f"{t.__name__}:{{" + ", ".join(sorted(items)) + "}"
+    if t is dict:
+        items = [(canon(k), canon(x)) for k, x in v.items()]
+        return None if any(a is None or b is None for a, b in items) else "dict:{" + ", ".join(
+            f"{a}: {b}" for a, b in items) + "}"
+    return None
+
+
 def dec(j):
     if isinstance(j, dict):
         if "t" in j:
@@ -56,11 +78,27 @@ def outcome(j):
     return tuple(j)
 
 
+def direct_disagreement(r: dict) -> str | None:
+    """the property itself, without any model: a value returned by literal_value is the value CPython computes.
+    Only values made of plain data are compared (canonical text; sets by content)."""
+    lv, py = r.get("lv"), r.get("py")
+    if not lv or lv[0] != "known" or lv[2] is None or not py:
+        return None
+    if py[0] == "known":
+        if py[2] is None or py[2] == lv[2]:
+            return None
+        return f"literal_value returns {lv[2]} but Python computes {py[2]}"
+    if py[0] == "crash":
+        return f"literal_value returns {lv[2]} but Python raises {py[1]}"
+    return None
+
+
 def _timed(fn):
     import signal
     signal.setitimer(signal.ITIMER_REAL, c15_worker.JOB_TIMEOUT)
     try:
-        return ["known", enc(fn())]
+        v = fn()
+        return ["known", enc(v), canon(v)]
     except _Timeout:
         return ["hang"]
     except ValueError:
@@ -143,7 +181,9 @@ def _run_program(text: str, out):
         exc = type(e).__name__
     finally:
         signal.setitimer(signal.ITIMER_REAL, 0)
-    return [out.getvalue()[:400], exc]
+    # object addresses in reprs differ from run to run
+    import re
+    return [re.sub(r" at 0x[0-9a-fA-F]+", " at 0x?", out.getvalue())[:400], exc]
 
 
 def make_program_job(mods):
@@ -155,6 +195,10 @@ def make_program_job(mods):
         "remove_redundant_boolop_values": mods["fixes"].remove_redundant_boolop_values,
         "simplify_boolean_expressions": mods["symbolic_math"].simplify_boolean_expressions,
         "format_code": main.format_code,
+        # sites of other owners that share a root cause with a C15 hunt item (bisecting format_code failures)
+        "simplify_boolean_expressions_symmath": mods["symbolic_math"].simplify_boolean_expressions_symmath,
+        "simplify_math_iterators": mods["symbolic_math"].simplify_math_iterators,
+        "replace_functions_with_literals": mods["fixes"].replace_functions_with_literals,
     }
 
     def job(j, out):
@@ -264,6 +308,77 @@ def suspect_result(r: dict) -> bool:
     return any(isinstance(r.get(k), list) and len(r[k]) == 2 and r[k][1] == "hang" for k in ("before", "after"))
 
 
+DET_SCRIPT = r"""
+import ast, json, signal, sys, io, os
+sys.path.insert(0, sys.argv[1])
+from pyrefact import core, logs
+logs.set_level(100)
+class T(BaseException): pass
+def alarm(*a): raise T()
+signal.signal(signal.SIGALRM, alarm)
+PLAIN = (type(None), bool, int, float, complex, str, bytes, range, slice)
+def plain(v):
+    if isinstance(v, PLAIN): return True
+    if isinstance(v, (tuple, list, set, frozenset)): return all(plain(x) for x in v)
+    if isinstance(v, dict): return all(plain(k) and plain(x) for k, x in v.items())
+    return False
+out = []
+sys.stdin = open(os.devnull)
+for src in json.load(open(sys.argv[2])):
+    sys.stdout = sys.stderr = io.StringIO()
+    signal.setitimer(signal.ITIMER_REAL, 2.0)
+    try:
+        v = core.literal_value(ast.parse(src, mode="eval").body)
+        # sets are compared by content, everything else by repr (a repr that contains an address differs)
+        if plain(v):
+            r = ["known", repr(sorted(map(repr, v))) if isinstance(v, (set, frozenset)) else repr(v)]
+        else:
+            r = ["known-type", type(v).__name__]
+    except ValueError: r = ["unknown"]
+    except T: r = ["hang"]
+    except BaseException as e: r = ["crash", type(e).__name__]
+    finally: signal.setitimer(signal.ITIMER_REAL, 0)
+    out.append(r)
+sys.stdout = sys.__stdout__
+print("DET:" + json.dumps(out))
+"""
+
+
+def determinism_check(srcs, wd) -> list:
+    """core.literal_value on the same expressions in fresh interpreters with PYTHONHASHSEED = 1, 2, 3 (own processes,
+    2 s timer per expression, /dev/null stdin, scratch cwd): every returned value must be the same in all of them"""
+    import subprocess
+    import sys
+    sb = wd / "sandbox"
+    sb.mkdir(exist_ok=True)
+    (wd / "det_exprs.json").write_text(json.dumps(srcs))
+    (wd / "det_script.py").write_text(DET_SCRIPT)
+    procs = []
+    for seed in ("1", "2", "3"):
+        env = dict(os.environ, PYTHONHASHSEED=seed, PYTHONPATH=str(common.REPO), PYTHONDONTWRITEBYTECODE="1")
+        procs.append(subprocess.Popen([sys.executable, str(wd / "det_script.py"), str(common.REPO),
+                                       str(wd / "det_exprs.json")], cwd=sb, env=env, stdin=subprocess.DEVNULL,
+                                      stdout=subprocess.PIPE, stderr=subprocess.DEVNULL, text=True))
+    outs = []
+    for p in procs:
+        try:
+            o, _ = p.communicate(timeout=600)
+        except subprocess.TimeoutExpired:
+            p.kill()
+            o = ""
+        line = [l for l in o.splitlines() if l.startswith("DET:")]
+        outs.append(json.loads(line[0][4:]) if line else None)
+    if any(o is None or len(o) != len(srcs) for o in outs):
+        return [{"kind": "determinism-run-failed", "detail": [None if o is None else len(o) for o in outs]}]
+    res = []
+    for i, src in enumerate(srcs):
+        vals = [o[i] for o in outs]
+        if any(v[0] == "known" for v in vals) and any(v != vals[0] for v in vals):
+            res.append({"kind": "nondeterministic-value", "expr": src, "values_by_hash_seed_1_2_3": vals,
+                        "problem": "literal_value returns a value that depends on the hash seed / the process"})
+    return res
+
+
 def evaluate_terms(mods, terms, wd, nproc):
     srcs = [T.to_src(t) for t in terms]
     return c15_worker.run_jobs_retry(srcs, make_expr_job(mods), nproc, str(wd / "sandbox"), suspect_result)
@@ -333,7 +448,7 @@ def _check(run: common.Run):
     # ---- evaluate the real code and CPython in isolated workers
     raw = evaluate_terms(mods, terms, wd, nproc)
     t_eval = time.time() - t0
-    items, effects = [], []
+    items, effects, direct = [], [], []
     distinct = set()
     for (label, t), r in zip(labelled, raw):
         if r is None or "lv" not in r:
@@ -348,6 +463,9 @@ def _check(run: common.Run):
         hist["node:" + t[0]] += 1
         if r.get("lv_out") or lvo[0] in ("hang", "crash"):
             effects.append((label, t, lvo, r.get("lv_out", "")))
+        dd = direct_disagreement(r) if not outside_claim(t) else None
+        if dd:
+            direct.append({"kind": "direct", "expr": T.to_src(t), "problem": dd})
         if lvo[0] == "known":
             distinct.add(T.to_src(t))
         items.append((t, lvo if lvo[0] != "hang" else ("crash", "Hang"), pyo))
@@ -373,6 +491,36 @@ def _check(run: common.Run):
         if not any(x.get("expr") == d["expr"] for x in disagreements):
             disagreements.append(d)
 
+    for d in direct:
+        if not any(x.get("expr") == d["expr"] for x in disagreements):
+            disagreements.append(d)
+
+    # ---- raw expressions (sets, floats, dunder methods, iterators ...: outside PyValModel.expr): the property
+    # itself -- a value returned by literal_value is CPython's value -- and no effect / crash / hang
+    ts = time.time()
+    raw_srcs = list(dict.fromkeys(H.RAW_EXPRS))
+    raw_res = c15_worker.run_jobs_retry(raw_srcs, make_expr_job(mods), nproc, str(wd / "sandbox"), suspect_result)
+    # one process, fixed order: literal_value must be a function of the expression (seed C15-a)
+    seq_res = c15_worker.run_jobs_retry(H.SHARED_SUBTERM_SEQUENCE, make_expr_job(mods), 1, str(wd / "sandbox"),
+                                        suspect_result)
+    for src, r in list(zip(raw_srcs, raw_res)) + list(zip(H.SHARED_SUBTERM_SEQUENCE, seq_res)):
+        r = r or {}
+        lvj = r.get("lv") or ["hang"]
+        hist["raw:lv=" + lvj[0]] += 1
+        if lvj[0] == "known":
+            distinct.add(src)
+        if r.get("lv_out") or lvj[0] in ("hang", "crash"):
+            disagreements.append({"kind": "effect-or-crash", "expr": src, "literal_value": lvj[:2],
+                                  "stdout": r.get("lv_out", "")})
+        dd = direct_disagreement(r)
+        if dd:
+            disagreements.append({"kind": "direct", "expr": src, "problem": dd})
+    # across interpreter processes with different hash seeds (C15-5, C06-0..2): a returned value is the same everywhere
+    det = determinism_check(raw_srcs, wd)
+    for d in det:
+        disagreements.append(d)
+    stage["raw"] = round(time.time() - ts, 1)
+
     # ---- end-to-end oracle (deterministic sweep): rules + format_code on programs around expressions
     sweep_exprs = [t for lab, t in labelled if lab.startswith("W:")]
     sweep_exprs += [t for lab, t in l1[::(97 if run.tier == "quick" else 7)]]
@@ -392,6 +540,35 @@ def _check(run: common.Run):
         jobs.append((rule, text))
         meta.append(("<fixed witness>", "witness", rule))
         terms_of_job.append(None)
+    for hid, rule, text in H.WITNESSES:
+        jobs.append((rule, text))
+        meta.append((f"<hunt {hid}>", "witness", rule))
+        terms_of_job.append(None)
+    quick = run.tier == "quick"
+    families = [
+        ("rebound", [p for _, p in H.rebound_builtin_programs()],
+         ["remove_dead_ifs", "delete_unreachable_code", "remove_redundant_boolop_values", "simplify_boolean_expressions",
+          "simplify_math_iterators", "replace_functions_with_literals"], 3),
+        ("raising", list(H.raising_operand_programs()),
+         ["simplify_boolean_expressions", "remove_redundant_boolop_values", "remove_dead_ifs", "delete_unreachable_code"], 7),
+        ("selfcmp", list(H.self_comparison_programs()), ["simplify_boolean_expressions"], 3),
+        ("sametext", list(H.identical_operand_programs()),
+         ["simplify_boolean_expressions", "remove_redundant_boolop_values", "simplify_boolean_expressions_symmath"], 3),
+        ("comp", list(H.comprehension_programs()), ["remove_dead_ifs"], 1),
+        ("foriter", list(H.for_iterable_programs()), ["delete_unreachable_code", "remove_dead_ifs"], 1),
+    ]
+    for fam, progs, rules, fc_step in families:
+        progs = list(dict.fromkeys(progs))
+        hist["family:" + fam] += len(progs)
+        for i, text in enumerate(progs):
+            for rule in rules:
+                jobs.append((rule, text))
+                meta.append((f"<family {fam}>", fam, rule))
+                terms_of_job.append(None)
+            if i % (fc_step * (2 if quick else 1)) == 0:
+                jobs.append(("format_code", text))
+                meta.append((f"<family {fam}>", fam, "format_code"))
+                terms_of_job.append(None)
     for t in sweep_exprs[:: (3 if run.tier == "quick" else 4)]:
         if has_singleton_eq(t) or has_display_membership(t):
             # not C15's concern: fixes.singleton_eq_comparison rewrites `x == True` to `x is True`; a performance
@@ -498,7 +675,12 @@ def _check(run: common.Run):
         run.violation({"kind": "property-oracle", **f_,
                        "explanation": "a rule folded a condition / dropped an operand (or crashed, or had an effect) "
                                       "and the program's behaviour differs from Python's"}, True)
-    if not unmatched:
+    hard = [d for d in disagreements if d.get("kind") in ("direct", "nondeterministic-value")]
+    for d in hard[:5]:
+        run.violation({"kind": "property-oracle-expression", **d,
+                       "explanation": "core.literal_value returns a value for this expression that is not the value "
+                                      "Python computes (or not the same value in every interpreter process)"}, True)
+    if not unmatched and not hard:
         for d in disagreements[:5]:
             run.violation({"kind": "correspondence", "kernel": "K4", "detail": d,
                            "explanation": "core.literal_value vs LitValModel.lv, or CPython eval vs PyValModel.eval, "
@@ -782,10 +964,88 @@ def _boolop_truth_context_drops_call(f) -> bool:
                for n in ast.walk(tree))
 
 
-SIGS = {"boolop_constant_fold": _boolop_constant_fold, "unbounded_evaluation": _unbounded_evaluation,
+def _binds_and_calls(tree, names) -> bool:
+    bound = set()
+    for n in ast.walk(tree):
+        if isinstance(n, ast.Name) and not isinstance(n.ctx, ast.Load):
+            bound.add(n.id)
+        elif isinstance(n, (ast.FunctionDef, ast.AsyncFunctionDef, ast.ClassDef)):
+            bound.add(n.name)
+        elif isinstance(n, ast.arg):
+            bound.add(n.arg)
+        elif isinstance(n, ast.alias):
+            bound.add((n.asname or n.name).split(".")[0])
+        elif isinstance(n, (ast.Global, ast.Nonlocal)):
+            bound.update(n.names)
+    return any(isinstance(n, ast.Call) and isinstance(n.func, ast.Name) and n.func.id in bound and n.func.id in names
+               for n in ast.walk(tree))
+
+
+def _parse_or_none(text):
+    try:
+        return ast.parse(text)
+    except SyntaxError:
+        return None
+
+
+def _self_equality_of_name(f) -> bool:
+    """F15-12: `x == x` / `a.b == a.b` (a name or attribute chain compared with itself) is folded to True."""
+    tree = _parse_or_none(f["program"])
+    if tree is None or f["rule"] not in ("simplify_boolean_expressions", "format_code"):
+        return False
+
+    def name_chain(n):
+        while isinstance(n, ast.Attribute):
+            n = n.value
+        return isinstance(n, ast.Name)
+    return any(isinstance(n, ast.Compare) and len(n.ops) == 1 and isinstance(n.ops[0], ast.Eq) and name_chain(n.left)
+               and ast.unparse(n.left) == ast.unparse(n.comparators[0]) for n in ast.walk(tree))
+
+
+def _same_text_operands_symmath(f) -> bool:
+    """F15-13 (hunt C15-3, owner c17h): the sympy-based rule gives one symbol to all operands with the same text.
+    Predicate: that rule (or the pipeline) and an and/or (possibly nested) in which two sub-operands, `not` stripped,
+    have the same text and contain a call."""
+    tree = _parse_or_none(f["program"])
+    if tree is None or f["rule"] not in ("simplify_boolean_expressions_symmath", "format_code"):
+        return False
+    for n in ast.walk(tree):
+        if isinstance(n, ast.BoolOp):
+            texts = []
+            for v in ast.walk(n):
+                if isinstance(v, (ast.BoolOp,)) or (isinstance(v, ast.UnaryOp) and isinstance(v.op, ast.Not)):
+                    continue
+                if any(isinstance(c, ast.Call) for c in ast.walk(v)) and isinstance(v, ast.expr):
+                    texts.append(ast.unparse(v))
+            if len(texts) != len(set(texts)):
+                return True
+    return False
+
+
+def _rebound_sum(f) -> bool:
+    """F15-14 (hunt C15-0, owner c17h): simplify_math_iterators evaluates sum(...) although the file rebinds sum."""
+    tree = _parse_or_none(f["program"])
+    return tree is not None and f["rule"] in ("simplify_math_iterators", "format_code") and _binds_and_calls(tree, {"sum"})
+
+
+def _rebound_container_builtin(f) -> bool:
+    """F15-15 (hunt C15-0, owner fxb): replace_functions_with_literals turns list(()) / tuple(..) / set(..) / dict(..)
+    into displays although the file rebinds the name."""
+    tree = _parse_or_none(f["program"])
+    return tree is not None and f["rule"] in ("replace_functions_with_literals", "format_code") and _binds_and_calls(
+        tree, {"list", "tuple", "set", "dict", "sorted"})
+
+
+SIGS = {"self_equality_of_name": _self_equality_of_name, "same_text_operands_symmath": _same_text_operands_symmath,
+        "rebound_sum": _rebound_sum, "rebound_container_builtin": _rebound_container_builtin,
+        "boolop_constant_fold": _boolop_constant_fold, "unbounded_evaluation": _unbounded_evaluation,
         "boolop_truth_context_drops_call": _boolop_truth_context_drops_call}
 WITNESS = {
-    "F15-11": ("simplify_boolean_expressions", PROGRAM_PRELUDE + "if f() and 0:\n    print(1)\nprint(3)\n"),
+    "F15-12": ("simplify_boolean_expressions", "x = float('nan')\nprint(x == x)\n"),
+    "F15-13": ("simplify_boolean_expressions_symmath",
+               "it = iter([1, 0])\nif next(it) and not next(it):\n    print('T')\nelse:\n    print('F')\n"),
+    "F15-14": ("simplify_math_iterators", "def sum(*a):\n    return 0\nprint(sum((1, 2)))\n"),
+    "F15-15": ("replace_functions_with_literals", "def list(*a):\n    return 1\nprint(list(()))\n"),
     "F15-7": ("remove_dead_ifs", "if 3 ** 10 ** 8:\n    print(1)\n"),
 }
 
